@@ -232,7 +232,7 @@ void ExecImpl::op_expect(const Op& op, std::function<void()>* scope_body) {
   long lo = ((op.a[5] % 5) + 5) % 5, hi = ((op.a[6] % 5) + 5) % 5;
   if (d.bf == BF_RT1) { e.L = lo; e.H = lo; }
   else if (d.bf == BF_RT2) { e.L = lo; e.H = hi; }
-  else if (d.bf == BF_RTAL) { e.L = lo; e.H = UNBOUNDED; }   // RT_TIMES(AT_LEAST(lo))
+  else if (d.bf == BF_RTAL) { if (op.a[5] == 4) lo = 1L << 40; e.L = lo; e.H = UNBOUNDED; }   // RT_TIMES(AT_LEAST(lo)), also with a count beyond 32 bits
   else if (d.bf == BF_RTAM) { e.L = 0; e.H = hi; }            // RT_TIMES(AT_MOST(hi))
   else { e.L = d.L; e.H = d.H; }
   bool inverted = d.bf == BF_RT2 && lo > hi;
@@ -266,7 +266,7 @@ void ExecImpl::op_expect(const Op& op, std::function<void()>* scope_body) {
     std::unique_ptr<Inst> inst(new Inst);
     std::unique_ptr<int> cell(new int(0));
     inst->id = e.id; for (int i = 0; i < 3; ++i) inst->v[i] = e.v[i];
-    inst->lo = static_cast<size_t>(lo); inst->hi = static_cast<size_t>(hi); inst->snap = e.snap; inst->str = std::to_string(1000 + e.id); inst->pr = {1000 + e.id, e.id}; inst->cell = cell.get();
+    inst->lo = static_cast<size_t>(lo); inst->hi = static_cast<size_t>(hi); inst->snap = e.snap; inst->str = std::to_string(1000 + e.id); inst->pr = {1000 + e.id, e.id}; inst->exc.text = "inst " + std::to_string(e.id); inst->cell = cell.get();
     for (int i = 0; i < d.nseq; ++i) inst->s[i] = rseqs[chosen[static_cast<size_t>(i)]].get();
     bool threw = false;
     try {
@@ -297,7 +297,7 @@ void ExecImpl::op_expect(const Op& op, std::function<void()>* scope_body) {
     x.id = id; for (int i = 0; i < 3; ++i) x.v[i] = e.v[i];
     x.lo = static_cast<size_t>(lo); x.hi = static_cast<size_t>(hi);
     if (!d.runtime_bounds()) { x.lo = static_cast<size_t>(e.L < 0 ? 0 : e.L); x.hi = static_cast<size_t>(e.H < 0 ? 0 : e.H); }
-    x.snap = e.snap; x.str = std::to_string(1000 + id); x.pr = {1000 + id, id}; x.cell = slot.cell.get();
+    x.snap = e.snap; x.str = std::to_string(1000 + id); x.pr = {1000 + id, id}; x.exc.text = "inst " + std::to_string(id); x.cell = slot.cell.get();
     for (int i = 0; i < d.nseq; ++i) x.s[i] = rseqs[chosen[static_cast<size_t>(i)]].get();
     Obs oc, od;
     std::vector<XRep> want_release;
@@ -339,7 +339,7 @@ void ExecImpl::op_expect(const Op& op, std::function<void()>* scope_body) {
   x.id = e.id; for (int i = 0; i < 3; ++i) x.v[i] = e.v[i];
   x.lo = static_cast<size_t>(e.L < 0 ? 0 : e.L); x.hi = static_cast<size_t>(e.H < 0 ? 0 : e.H);
   if (d.runtime_bounds()) { x.lo = static_cast<size_t>(lo); x.hi = static_cast<size_t>(hi); }
-  x.snap = e.snap; x.str = std::to_string(1000 + x.id); x.pr = {1000 + x.id, x.id}; x.cell = re.cell.get();
+  x.snap = e.snap; x.str = std::to_string(1000 + x.id); x.pr = {1000 + x.id, x.id}; x.exc.text = "inst " + std::to_string(x.id); x.cell = re.cell.get();
   for (int i = 0; i < d.nseq; ++i) x.s[i] = rseqs[chosen[static_cast<size_t>(i)]].get();
   bool threw = false;
   try {
